@@ -129,7 +129,12 @@ def ptype(t: ir.PType):
     if t.kind == "binary":
         return T.BinaryParameterType(t.name, enc, t.unit)
     if t.kind == "enumerated":
-        return T.EnumeratedParameterType(t.name, enc, enumeration={v: lab for v, lab in t.enumeration}, unit=t.unit)
+        if isinstance(t.enc, ir.StrEnc):
+            from vmon import ref
+            enum = {ref.encode_text(v, t.enc.charset, t.enc.byte_order): lab for v, lab in t.enumeration}
+        else:
+            enum = {v: lab for v, lab in t.enumeration}
+        return T.EnumeratedParameterType(t.name, enc, enumeration=enum, unit=t.unit)
     cls = T.AbsoluteTimeParameterType if t.kind == "abstime" else T.RelativeTimeParameterType
     if t.scale is not None or t.offset is not None:
         # the documented object-level equivalent of Encoding@scale/@offset: a linear default calibrator
